@@ -485,7 +485,8 @@ def _cluster_to_df(c):
             ('C12-live-reservations', r['provisioned_observations'].t == z3.ToReal(k.idle.nk))]
 
 
-REG.contract('Cluster.to_df', ensures=_cluster_to_df, props=['C12'])
+REG.contract('Cluster.to_df', ensures=_cluster_to_df, props=['C12'],
+             result='frame:available_resources=num;ingest_resources=num;running_tasks=num;finished_tasks=num;provisioned_observations=num')
 REG.contract('Cluster.get_machine_from_id', params={'id': 'str'}, fix={'c': 'default'},
              ensures=lambda c: [('is-the-registered-machine', c.result.t == z3.Select(c.o.self.machine_ids.vals, c.o.id.t))],
              raises={'KeyError': dict(when=lambda c: z3.Not(z3.Select(c.o.self.machine_ids.keys, c.o.id.t)))},
